@@ -43,6 +43,12 @@ def slice {α : Type} (l : List α) (lo hi : Int) : List α := (l.take hi.toNat)
 /-- `x[i] = v` (meaningful when `idxOK`) -/
 def set {α : Type} (l : List α) (i : Int) (x : α) : List α := l.set i.toNat x
 
+/-- `copy(dst, src)`: the new value of `dst` -/
+def copy {α : Type} (dst src : List α) : List α := src.take dst.length ++ dst.drop src.length
+
+/-- `%d` of `fmt.Sprintf` -/
+def fmtInt (n : Int) : Bytes := if n < 0 then 45 :: decDigits (-n).toNat else decDigits n.toNat
+
 /-- the `int` a Go search function returns: `-1` = not found -/
 def optIdx : Option Nat → Int
   | some i => (i : Nat)
